@@ -58,6 +58,16 @@ type Report struct {
 	Extra       map[string]any
 	start       time.Time
 	quiet       bool
+	alias       map[string]string // when set: rule ids are rewritten through it and rules not listed are dropped
+}
+
+// WithAlias runs f (another property's rule set) keeping only the listed rules, reported under this property's ids.
+func (r *Report) WithAlias(alias map[string]string, f func()) {
+	expl, nd, as := r.Explanation, r.NotDecided, r.Assumptions
+	r.alias = alias
+	f()
+	r.alias = nil
+	r.Explanation, r.NotDecided, r.Assumptions = expl, nd, as
 }
 
 func newReport(prop, tier string, seed int, c *Ctx) *Report {
@@ -66,6 +76,13 @@ func newReport(prop, tier string, seed int, c *Ctx) *Report {
 
 // Rule declares a rule; min = instance count confirmed by hand on today's tree (vacuity guard).
 func (r *Report) Rule(id, template string, min int) {
+	if r.alias != nil {
+		a, ok := r.alias[id]
+		if !ok {
+			return
+		}
+		id = a
+	}
 	if _, ok := r.Rules[id]; !ok {
 		r.ruleOrder = append(r.ruleOrder, id)
 		r.Rules[id] = &RuleInfo{ID: id, Template: template, Min: min}
@@ -73,6 +90,13 @@ func (r *Report) Rule(id, template string, min int) {
 }
 
 func (r *Report) add(o Obligation) {
+	if r.alias != nil {
+		a, ok := r.alias[o.Rule]
+		if !ok {
+			return
+		}
+		o.Rule = a
+	}
 	if ri := r.Rules[o.Rule]; ri != nil && o.Verdict != "control" {
 		ri.Instances++
 	}
